@@ -228,7 +228,17 @@ def scenario(run, tape, clock, store):
         live = sorted(gens)
         switches = 0
         last = None
+        save_at = 1 + tape.draw(6) if tape.draw(3) == 2 else None      # the service keeps recording while the results are consumed
+        steps = 0
         while live:
+            steps += 1
+            if save_at is not None and steps == save_at:
+                run.probe('recording_saved_while_results_are_consumed')
+                w = store.open()
+                r_new = w.create_new_recording('OpZ_unrelated')
+                r_new.set_data('k', 1)
+                r_new.add_metadata({'m': 1})
+                w.save_recording(r_new)
             c = live[tape.draw(len(live))]
             if last is not None and c != last:
                 switches += 1
